@@ -48,6 +48,7 @@ type c03Job struct {
 	Post int        `json:"post"` // blocks appended after the last reorg
 	Sec  *c03Second `json:"sec,omitempty"`
 	Deep bool       `json:"deep,omitempty"` // explore with two deviations (thorough tier, selected jobs)
+	Flat bool       `json:"flat,omitempty"` // free switches only, no deviation: jobs about the DEPTH of a reorg, not about interleavings
 }
 
 type c03Case struct {
@@ -63,7 +64,7 @@ func init() {
 		ID:        "C03",
 		Level:     "model_checking",
 		Technique: "stateless model checking of the real pipeline (controlled scheduler over instrumented code, fake Postgres, simulated node): a chain indexed with batch b0, restart with batch b1/conc, then every interleaving (preemption-bounded, reorg landing at every RPC point) of the task thread(s) with an environment thread applying growth and one or two reorgs; oracle = independent projection of the final canonical chain + frame condition on every commit diff",
-		Rule: "jobs = integration sets {L1 (headers+logs), T1 (blocks), R1 (blocks+receipts), TR1 (blocks+traces), and L1+T1, T1+R1, T1+TR1 sharing one source client} x n in {4,5} (thorough 6) x index batch b0 in 1..3 x batch b1 in 1..3 x conc in {1,2} x pre-growth {0,1} x fork depth d in 1..3 x replacement length r in {d-1,d,d+1,d+2} x content {same, log removed, added, moved} x post-growth {0,1} x optional second reorg at fork-1/fork/fork+1 (equal or longer); thorough = the product with content/growth flags rotating over it, quick = a hand-picked covering subset (see c03Jobs); " +
+		Rule: "jobs = integration sets {L1 (headers+logs), T1 (blocks), R1 (blocks+receipts), TR1 (blocks+traces), and L1+T1, T1+R1, T1+TR1 sharing one source client} x n in {4,5} (thorough 6) x index batch b0 in 1..3 x batch b1 in 1..3 x conc in {1,2} x pre-growth {0,1} x fork depth d in 1..3 x replacement length r in {d-1,d,d+1,d+2} x content {same, log removed, added, moved} x post-growth {0,1} x optional second reorg at fork-1/fork/fork+1 (equal or longer), plus deep reorgs orphaning 12-15 recorded positions (n=14..26, explored with free switches only); thorough = the product with content/growth flags rotating over it, quick = a hand-picked covering subset (see c03Jobs); " +
 			"per job every schedule of task thread(s) and the environment thread with <= 1 deviation (thorough: 2 on the single-integration jobs with index batch 1), free switches at step boundaries and between environment operations, environment switches otherwise only at RPC points; both partition orders when conc=2 and index batch 1. An execution is non-trivial when the code under test deleted at least one row or cursor (a reorg was unwound) or the oracle rejected it; distinct = distinct (job, choice sequence).",
 		Assumptions: []string{
 			"fake Postgres (h/simpg) interprets the SQL shovel sends; simulated node (h/simeth) answers like a well-behaved geth that switches chains atomically between two requests",
@@ -103,6 +104,23 @@ func c03Valid(j c03Job) bool {
 	return true
 }
 
+// c03DeepJobs: reorgs that orphan more than ten recorded positions (the roll-back walks one position per loop turn).
+func c03DeepJobs(thorough bool) []c03Job {
+	jobs := []c03Job{
+		{Igs: "L1", N: 14, B0: 1, B1: 1, Conc: 1, D: 13, R: 14, Var: "same", Flat: true},             // 13 positions, batch 1
+		{Igs: "T1", N: 14, B0: 1, B1: 3, Conc: 1, D: 12, R: 13, Var: "same", Post: 1, Flat: true},    // 12 positions, re-indexed in batches of 3
+		{Igs: "L1", N: 26, B0: 2, B1: 2, Conc: 1, D: 24, R: 25, Var: "removed", Flat: true},          // 12 positions of 2 blocks each
+	}
+	if thorough {
+		jobs = append(jobs,
+			c03Job{Igs: "R1", N: 14, B0: 1, B1: 2, Conc: 2, Pre: 1, D: 13, R: 13, Var: "added", Post: 1, Flat: true},
+			c03Job{Igs: "TR1", N: 16, B0: 1, B1: 1, Conc: 1, D: 15, R: 16, Var: "same", Flat: true},
+			c03Job{Igs: "L1", N: 14, B0: 1, B1: 1, Conc: 1, D: 13, R: 14, Var: "same"}, // the same depth with one deviation
+		)
+	}
+	return jobs
+}
+
 func c03Jobs(thorough bool) []c03Job {
 	var jobs []c03Job
 	seen := map[string]bool{}
@@ -118,6 +136,9 @@ func c03Jobs(thorough bool) []c03Job {
 		jobs = append(jobs, j)
 	}
 	vars := []string{"same", "removed", "added", "moved"}
+	for _, j := range c03DeepJobs(thorough) {
+		add(j)
+	}
 	if thorough {
 		// broad product; content variant and growth flags rotate with the other dimensions
 		grid := func(ig string, ns, b0s, b1s, concs, ds []int) {
@@ -154,7 +175,7 @@ func c03Jobs(thorough bool) []c03Job {
 		grid("T1+TR1", []int{4}, []int{1, 2}, []int{1, 2}, []int{1}, []int{1, 2})
 		// two deviations on the single-integration jobs with index batch 1
 		for i := range jobs {
-			if jobs[i].B0 == 1 && !strings.Contains(jobs[i].Igs, "+") {
+			if jobs[i].B0 == 1 && jobs[i].N <= 6 && !strings.Contains(jobs[i].Igs, "+") {
 				jobs[i].Deep = true
 			}
 		}
@@ -859,6 +880,9 @@ func c03Bounds(thorough bool, j c03Job) explore.Bounds {
 		b[0], b[vrt.KPreempt] = 2, 2
 	}
 	b[vrt.KEnv] = 1 // one node-lag answer per execution (counts as a deviation)
+	if j.Flat {
+		return explore.Bounds{} // b[0]=0: no total bound, every costed kind 0 => free choices only
+	}
 	if j.Conc > 1 && j.B0 == 1 {
 		b[vrt.KOrder] = 1 // both orders of the two partitions of a step (jobs with index batch 1; the others keep the spawn order)
 	}
